@@ -28,6 +28,12 @@ M = [
  ("c15_region_3_letters", L+'subtags/region.rs', None, None),
  ("c17_into_parts_swap", LO+'lib.rs', "        (lang, region, script, variants, self.extensions.to_string())", "        (lang, region, None, variants, self.extensions.to_string())"),
  ("c17_script_be", L+'subtags/script.rs', None, None),
+ ("c16_lang_und_none", 'unic-langid-macros-impl/src/lib.rs', "        quote!($crate::subtags::Language::default())\n    };\n\n    TokenStream::from(quote! {\n        #lang\n    })", "        quote!(None)\n    };\n\n    TokenStream::from(quote! {\n        #lang\n    })"),
+ ("c16_langid_variants_unsorted", 'unic-langid-macros-impl/src/lib.rs', "    let (lang, script, region, variants) = parsed.into_parts();\n\n    let lang: Option<u64> = lang.into();\n    let lang = if let Some(lang) = lang {\n        quote!(unsafe { $crate::subtags::Language::from_raw_unchecked(#lang) })\n    } else {\n        quote!($crate::subtags::Language::default())\n    };\n\n    let script", "    let (lang, script, region, mut variants) = parsed.into_parts();\n    variants.reverse();\n\n    let lang: Option<u64> = lang.into();\n    let lang = if let Some(lang) = lang {\n        quote!(unsafe { $crate::subtags::Language::from_raw_unchecked(#lang) })\n    } else {\n        quote!($crate::subtags::Language::default())\n    };\n\n    let script"),
+ ("c20_serde_changes_display", L+'lib.rs', "        if let Some(ref region) = self.region {\n            f.write_char('-')?;", "        if let Some(ref region) = self.region {\n            #[cfg(feature = \"serde\")]\n            f.write_char('_')?;\n            #[cfg(not(feature = \"serde\"))]\n            f.write_char('-')?;"),
+ ("c20_likely_skips_dedup", L+'lib.rs', "            v.sort_unstable();\n            v.dedup();\n            self.variants = Some(v.into_boxed_slice());", "            v.sort_unstable();\n            #[cfg(not(feature = \"likelysubtags\"))]\n            v.dedup();\n            self.variants = Some(v.into_boxed_slice());"),
+ ("c19_serialize_debug", L+'serde.rs', "serializer.serialize_str(&self.to_string())", "serializer.serialize_str(&format!(\"{:?}\", self.to_string()))"),
+ ("c19_deserialize_lowercase", L+'serde.rs', "                s.parse::<LanguageIdentifier>()", "                s.to_lowercase().replace(' ', \"\").parse::<LanguageIdentifier>()"),
 ]
 def main():
     wt='/tmp/mk/repo'
